@@ -32,6 +32,47 @@ def _stmt(n):
     return n
 
 
+def _no_second_run_after_timeout(ctx, repo) -> None:
+    """An executor that runs a test case more than once per call (type tracing) starts a further run only
+    when the previous one did not time out: a non-terminating test must not stall a second thread."""
+    from sa.engine.cfg import CFG
+    from sa.engine.guards import unguarded_path
+
+    n = 0
+    for qn, fn in repo.module(EXE).functions.items():
+        runs = [c for c in own_nodes(fn) if isinstance(c, ast.Call) and last_attr(c) == "execute" and norm(c.func).startswith("self._delegate")]
+        if len(runs) < 2:
+            continue
+        ctx.analysed(fn)
+        cfg = CFG(fn)
+        def stmt_of(c):
+            while not isinstance(c, ast.stmt):
+                c = parent(c)
+            return c
+
+        for earlier in runs:
+            st0 = stmt_of(earlier)
+            res = norm(st0.targets[0]) if isinstance(st0, ast.Assign) else None
+            for later in runs:
+                if later is earlier:
+                    continue
+                st = stmt_of(later)
+                starts = [b for x in cfg.nodes_of(st0) for b, lab in cfg.succ[x] if lab != "exc"]
+                if not starts or cfg.path(starts, cfg.nodes_of(st), labels_excluded=("exc",)) is None:
+                    continue  # `later` does not follow `earlier` in one call
+
+                def no_timeout(lit, res=res):
+                    _k, e, pol = lit
+                    return res is not None and not pol and norm(e) == f"{res}.timeout"
+
+                p = unguarded_path(cfg, cfg.nodes_of(st), no_timeout)
+                n += 1
+                ctx.paths += 2
+                ctx.check("C32.no-retry", st, p is None, f"{qn}: the test case is executed again (`{norm(later)[:60]}`) on a path where the run before may have timed out (`not {res}.timeout` is not established): a non-terminating test stalls a second thread for another full timeout and grace period before the timeout is reported", what=f"{qn}: second run only after `not {res}.timeout`", path=cfg.describe_path(p) if p else None, stmt=f"[{qn}] second run")
+    if n == 0:
+        raise AnalysisError("C32.no-retry: no executor that runs a test case twice was found (TypeTracingTestCaseExecutor.execute)")
+
+
 def _ownership(ctx, repo) -> None:
     """Interpret __enter__ / __exit__ / stop / check of ExecutionTracer over schedules of two execution
     threads and the executor: check() must raise exactly for a thread that is not the current owner, and
@@ -96,6 +137,7 @@ def check(ctx) -> None:
     ctx.rule("C32.early", "every ExecutionTracer method that writes the trace is wrapped by _early_return (disabled -> return; then check()); undecorated private writers are only called from wrapped methods", floor=14)
     ctx.rule("C32.wrapper", "_early_return tests is_disabled() and calls check() before the wrapped function; check() raises TracingAbortedException when the current thread is not the owner; stop() revokes ownership", floor=4)
     ctx.rule("C32.ownership", "ABSINT: __enter__ / __exit__ / stop / check of ExecutionTracer interpreted over schedules of two execution threads and the executor: check() aborts exactly the threads that do not own the tracer, and an abandoned thread that unwinds later does not revoke the ownership of the thread that runs by then", floor=6)
+    ctx.rule("C32.no-retry", "GUARD-DOM: an executor that runs a test case twice per call reaches the second run only where `not <first result>.timeout` is established", floor=1)
     ctx.rule("C32.tls", "every trace mutation in ExecutionTracer goes through self._thread_local_state.trace (threading.local); no other attribute of the tracer holds the current trace", floor=14)
     ctx.rule("C32.abort", "on every exec path a handler naming TracingAbortedException precedes any BaseException / bare handler and re-raises or records the abort", floor=2)
     ctx.rule("C32.timeout", "the executor joins with timeouts bounded by the configured maximum, stops the tracer when the thread is still alive and returns a fresh ExecutionResult(timeout=True)", floor=5)
@@ -176,6 +218,7 @@ def check(ctx) -> None:
 
     # ------------------------------------------------------------------ C32.ownership
     _ownership(ctx, repo)
+    _no_second_run_after_timeout(ctx, repo)
 
     # ------------------------------------------------------------------ C32.tls
     tls = repo.cls(TR, "ExecutionTracer.TracerLocalState")
